@@ -666,7 +666,7 @@ impl CCtx {
 fn fc_atom(i: u64) -> E {
     if i == 0 { var(DSP_IN) } else { num(1.0) }
 }
-const FC_RADIX: u64 = 35;
+const FC_RADIX: u64 = 39;
 pub fn fc_count(k: u32) -> u64 {
     seq_count(FC_RADIX, k)
 }
@@ -829,6 +829,48 @@ fn fc_stmt(c: &mut CCtx, o: u64) -> Option<()> {
             c.stmts.push(let_(&r, e));
             c.vars.push((r, Ty::F, false));
         }
+        37 => {
+            // a stateful higher-order function: it keeps its own `self` and calls the function value it is given
+            // (the most recent one-parameter closure, or a lambda written in place)
+            let r = c.fresh("r");
+            c.need("sapply");
+            let f = match c.last(Ty::C1) {
+                Some(f) => var(&f),
+                None => E::Lambda(vec!["y".into()], Box::new(bin("*", var("y"), num(2.0)))),
+            };
+            c.ops.push(format!("let {r} = sapply({}, {})", pe(&f, 0), pe(&a, 0)));
+            let s = c.sites.next();
+            c.stmts.push(let_(&r, call("sapply", vec![f, a], s)));
+            c.vars.push((r, Ty::F, false));
+        }
+        38 => {
+            // a closure called on some samples only
+            let f = c.last(Ty::C1)?;
+            let r = c.fresh("r");
+            c.ops.push(format!("let {r} = if (x > 0.5) {f}(a) else a"));
+            let s = c.sites.next();
+            c.stmts.push(let_(&r, iff(bin(">", var(DSP_IN), num(0.5)), call(&f, vec![a.clone()], s), a)));
+            c.vars.push((r, Ty::F, false));
+        }
+        35 | 36 => {
+            // a local recursive function (letrec) used as a loop: an accumulator loop, and one that reads a captured local
+            let g = c.fresh("go");
+            let r = c.fresh("r");
+            let (s1, s2) = (c.sites.next(), c.sites.next());
+            if o == 35 {
+                let body = iff(bin(">", var("i"), num(2.5)), var("acc"), call(&g, vec![bin("+", var("i"), num(1.0)), bin("+", var("acc"), var("i"))], s1));
+                c.ops.push(format!("letrec {g} = |i, acc| if (i > 2.5) acc else {g}(i + 1, acc + i); let {r} = {g}(0, a)"));
+                c.stmts.push(S::LetRec(g.clone(), E::Lambda(vec!["i".into(), "acc".into()], Box::new(body))));
+                c.stmts.push(let_(&r, call(&g, vec![num(0.0), a], s2)));
+            } else {
+                let v = c.last(Ty::F).unwrap_or(DSP_IN.into());
+                let body = iff(bin("<", var("i"), num(0.5)), var(&v), bin("+", call(&g, vec![bin("-", var("i"), num(1.0))], s1), num(1.0)));
+                c.ops.push(format!("letrec {g} = |i| if (i < 0.5) {v} else {g}(i - 1) + 1; let {r} = {g}(2)"));
+                c.stmts.push(S::LetRec(g.clone(), E::Lambda(vec!["i".into()], Box::new(body))));
+                c.stmts.push(let_(&r, call(&g, vec![num(2.0)], s2)));
+            }
+            c.vars.push((r, Ty::F, false));
+        }
         30 | 31 => {
             // the closure a factory returns is applied on the spot: mkadd(a)(b)
             let r = c.fresh("r");
@@ -891,13 +933,14 @@ pub fn fc_decode(idx: u64, k: u32) -> Option<Gen> {
     };
     let mut hs = Sites(0);
     let mut items = vec![];
-    for h in ["cnt", "apply", "mkadd", "mkcounter", "gc", "gadd", "idf", "fact", "mkrec", "grec"] {
+    for h in ["cnt", "apply", "sapply", "mkadd", "mkcounter", "gc", "gadd", "idf", "fact", "mkrec", "grec"] {
         if !c.need.contains(&h) {
             continue;
         }
         match h {
             "cnt" => items.push(helper("cnt", &mut hs)),
             "apply" => items.push(fdef("apply", &["f", "a"], call("f", vec![var("a")], hs.next()), Shape::F)),
+            "sapply" => items.push(fdef("sapply", &["f", "a"], bin("+", E::SelfV, call("f", vec![var("a")], hs.next())), Shape::F)),
             "mkadd" => items.push(fdef("mkadd", &["n"], E::Lambda(vec!["y".into()], Box::new(bin("+", var("y"), var("n")))), Shape::F)),
             "mkcounter" => items.push(mkcounter()),
             "idf" => items.push(fdef("idf", &["a"], var("a"), Shape::F)),
@@ -945,7 +988,7 @@ fn mkcounter() -> Item {
 
 // ================================================================== FA: aggregates
 
-const FA_RADIX: u64 = 46;
+const FA_RADIX: u64 = 48;
 pub fn fa_count(k: u32) -> u64 {
     seq_count(FA_RADIX, k)
 }
@@ -1160,6 +1203,18 @@ fn fa_stmt(c: &mut ACtx, o: u64) -> Option<()> {
             let s = c.sites.next();
             c.push(v, ATy::F, E::CallPack("defb".into(), vec![("a".into(), c.f(0)?)], s), "defb({a = a}) with fn defb(a, b = a * 2)".into());
         }
+        46 | 47 => {
+            // a required parameter between two defaulted ones; the call relies on the later default
+            c.need("defm");
+            let v = c.fresh("p");
+            let s = c.sites.next();
+            let (fields, what) = if o == 46 {
+                (vec![("a".to_string(), c.f(0)?), ("..".to_string(), num(0.0))], "defm({a = a, ..}) with fn defm(b = 5, a, c = 7)")
+            } else {
+                (vec![("a".to_string(), c.f(0)?), ("b".to_string(), c.f(2)?), ("..".to_string(), num(0.0))], "defm({a = a, b = b, ..}) with fn defm(b = 5, a, c = 7)")
+            };
+            c.push(v, ATy::F, E::CallPack("defm".into(), fields, s), what.into());
+        }
         45 => {
             // a default value that is a closed expression with operators and a builtin call
             c.need("defc");
@@ -1279,6 +1334,12 @@ pub fn fa_decode(idx: u64, k: u32) -> Option<Gen> {
                 name: "defa".into(),
                 params: vec![("p".into(), Some(num(2.0))), ("q".into(), Some(num(3.0)))],
                 body: bin("+", bin("*", var("p"), num(10.0)), bin("+", var("q"), E::SelfV)),
+                ret: Shape::F,
+            })),
+            "defm" => items.push(Item::Fn(FnDef {
+                name: "defm".into(),
+                params: vec![("b".into(), Some(num(5.0))), ("a".into(), None), ("c".into(), Some(num(7.0)))],
+                body: bin("+", bin("*", var("b"), num(100.0)), bin("+", bin("*", var("a"), num(10.0)), var("c"))),
                 ret: Shape::F,
             })),
             "defb" => items.push(Item::Fn(FnDef {
@@ -1771,7 +1832,7 @@ pub fn walk(e: &E, f: &mut dyn FnMut(&E)) {
         E::Block(ss, r) => {
             for s in ss {
                 match s {
-                    S::Let(_, e) | S::Assign(_, e) | S::Expr(e) => walk(e, f),
+                    S::Let(_, e) | S::LetRec(_, e) | S::Assign(_, e) | S::Expr(e) => walk(e, f),
                 }
             }
             if let Some(r) = r {
@@ -1839,8 +1900,18 @@ pub fn features(p: &Prog) -> Vec<String> {
                 continue;
             }
             let mut creates = false;
+            // the closure of a local `letrec` is released when its frame returns (observed on the unchanged tree): it
+            // does not count as a per-call closure object
+            let (mut lambdas, mut letrec_lambdas) = (0, 0);
             walk(&f.body, &mut |x| match x {
-                E::Lambda(..) => creates = true,
+                E::Lambda(..) => lambdas += 1,
+                E::Block(ss, _) => letrec_lambdas += ss.iter().filter(|q| matches!(q, S::LetRec(_, E::Lambda(..)))).count(),
+                _ => {}
+            });
+            if lambdas > letrec_lambdas {
+                creates = true;
+            }
+            walk(&f.body, &mut |x| match x {
                 // a top-level function named as a value (bound to a local, passed on): wrapped in a closure object
                 E::Var(v) if fn_names.contains(v) => creates = true,
                 E::Call(n, args, _) => {
@@ -1922,6 +1993,17 @@ pub fn features(p: &Prog) -> Vec<String> {
                 });
                 if !asg_lams.is_empty() {
                     add("lambda_assigns_captured_variable");
+                }
+                let mut letrec = false;
+                walk(&f.body, &mut |x| {
+                    if let E::Block(ss, _) = x {
+                        if ss.iter().any(|q| matches!(q, S::LetRec(..))) {
+                            letrec = true;
+                        }
+                    }
+                });
+                if letrec {
+                    add("local_letrec");
                 }
                 let mut any_assign = false;
                 walk(&f.body, &mut |x| {
@@ -2069,6 +2151,7 @@ fn map_atoms(e: &E, counter: &mut u64, target: u64, repl: &E) -> E {
                 .iter()
                 .map(|s| match s {
                     S::Let(p, e) => S::Let(p.clone(), go(e)),
+                    S::LetRec(n, e) => S::LetRec(n.clone(), go(e)),
                     S::Assign(n, e) => S::Assign(n.clone(), go(e)),
                     S::Expr(e) => S::Expr(go(e)),
                 })
